@@ -1207,6 +1207,11 @@ def c18(v, tier, seed):
             lines.append("L %d %d 0 %s" % (cse["m0"], cse["m1"], hexs(cse["bytes"]))); meta.append(("single", cse, g))
             if g is not None and not cse["class"].startswith("good"):
                 lines.append("L %d %d 0 %s %s" % (cse["m0"], cse["m1"], hexs(cse["bytes"]), hexs(g["bytes"]))); meta.append(("then-good", cse, g))
+        # soak: a long run of one well-formed datagram in one process with a 1 MiB stack (per-datagram resource growth)
+        nsoak = (2500 if q else 8000) if lk != "crf" else 12       # (the media clock search of the crf listener takes ~0.7 s per AAF datagram)
+        for cse in [c_ for c_ in cases if c_["class"].startswith("good")]:
+            g = goods.get((cse["m0"], cse["m1"]))
+            lines.append("L %d %d 2 %s *%d %s" % (cse["m0"], cse["m1"], hexs(cse["bytes"]), nsoak, hexs(g["bytes"]))); meta.append(("soak", cse, g))
         obs, err = xprog.run_xh(exes[lk], lines)
         chunks = err.split("##CMD ")
         rep_by_cmd = {}
@@ -1221,12 +1226,12 @@ def c18(v, tier, seed):
             if kind == "alone":
                 alone[(cse["m0"], cse["m1"])] = {"ret": o["rets"][-1:] if o["rets"] else [], "out": o["outs"][-1:] if o["outs"] else []}
         for ci, ((kind, cse, g), o) in enumerate(zip(meta, obs)):
-            n = 2 if kind == "then-good" else 1
+            n = 2 if kind == "then-good" else (nsoak + 1 if kind == "soak" else 1)
             last = {"ret": o["rets"][-1:] if (o["rets"] and o["done"] == n) else [], "out": o["outs"][-1:] if (o["outs"] and o["done"] == n) else []}
             if lk == "crf":         # the media-clock recovery is stateful by design: only survival is required of the next datagram
                 last = {"ret": [], "out": []}
-            ev = {"e": "seq", "listener": lk, "classes": [cse["class"]] + (["good"] if kind == "then-good" else []), "mode": [cse["m0"], cse["m1"]],
-                  "n": n, "status": o["status"], "done": o["done"], "lastgood": 1 if kind == "then-good" else 0,
+            ev = {"e": "seq", "listener": lk, "classes": [cse["class"] + ("-x%d" % nsoak if kind == "soak" else "")] + (["good"] if kind in ("then-good", "soak") else []), "mode": [cse["m0"], cse["m1"]],
+                  "n": n, "status": o["status"], "done": o["done"], "lastgood": 1 if kind in ("then-good", "soak") else 0,
                   "last": last, "alone": alone.get((cse["m0"], cse["m1"]), {"ret": [], "out": []}) if lk != "crf" else {"ret": [], "out": []},
                   "bytes": hexs(cse["bytes"])[:3200]}
             if kind == "alone": ev["lastgood"] = 0
